@@ -234,6 +234,11 @@ func (e *env) e2e(c e2eCase) {
 	defer cancel()
 	sendErr := make(chan error, 1)
 	go func() {
+		defer func() {
+			if x := recover(); x != nil {
+				sendErr <- fmt.Errorf("panic in the send path: %v", x)
+			}
+		}()
 		if c.fromSrv {
 			sendErr <- snd.SendResponseWithContext(ctx, reqID, svc.(ua.Response))
 		} else {
@@ -322,7 +327,14 @@ func (e *env) e2e(c e2eCase) {
 
 	// ---- forward to the receiver, the real Receive reassembles
 	got := make(chan *uasc.MessageBody, 1)
-	go func() { got <- rcv.Receive(ctx) }()
+	go func() {
+		defer func() {
+			if x := recover(); x != nil {
+				got <- &uasc.MessageBody{Err: fmt.Errorf("panic in Receive: %v", x)}
+			}
+		}()
+		got <- rcv.Receive(ctx)
+	}()
 	for _, w := range wire {
 		wireOut.SetWriteDeadline(time.Now().Add(20 * time.Second))
 		if _, err := wireOut.Write(w); err != nil {
@@ -403,6 +415,25 @@ func (e *env) firstDiff(req string, wire [][]byte) string {
 
 // ---------------------------------------------------------------- instance level
 
+// safeSec calls signAndEncrypt; a panic of the implementation is an error here.
+func safeSec(inst *uasc.VerifInstance, m *uasc.Message, b []byte) (out []byte, err error) {
+	defer func() {
+		if x := recover(); x != nil {
+			err = fmt.Errorf("panic: %v", x)
+		}
+	}()
+	return inst.SignAndEncrypt(m, b)
+}
+
+func safeEncode(m *uasc.Message, maxBody uint32) (out [][]byte, err error) {
+	defer func() {
+		if x := recover(); x != nil {
+			err = fmt.Errorf("panic: %v", x)
+		}
+	}()
+	return m.EncodeChunks(maxBody)
+}
+
 type rawService []byte
 
 func (r rawService) Encode() ([]byte, error) { return []byte(r), nil }
@@ -415,7 +446,7 @@ func (e *env) encodeDiff(maxBody uint32, tail []byte) {
 		SymmetricSecurityHeader: uasc.NewSymmetricSecurityHeader(tokID),
 		SequenceHeader:          uasc.NewSequenceHeader(seq, req),
 	}, TypeID: ua.NewFourByteExpandedNodeID(0, 631), Service: rawService(tail)}
-	chunks, err := m.EncodeChunks(maxBody)
+	chunks, err := safeEncode(m, maxBody)
 	if err != nil {
 		e.r.Fail(fmt.Sprintf("enc %d body=%d", maxBody, 4+len(tail)), "", "EncodeChunks: "+err.Error())
 		return
@@ -491,7 +522,7 @@ func (e *env) secDiff(uri string, mode ua.MessageSecurityMode, n int) {
 		SequenceHeader:          uasc.NewSequenceHeader(1, 1),
 	}}
 	rawHex := h.Hex(raw)
-	wire, err := snd.SignAndEncrypt(m, append([]byte(nil), raw...))
+	wire, err := safeSec(snd, m, append([]byte(nil), raw...))
 	c := fmt.Sprintf("sec %s %d %s %s %s", pol, mode, h.Hex(nS), h.Hex(nR), rawHex)
 	e.r.Count(fmt.Sprintf("sec %s %d %d", pol, mode, n), true)
 	e.r.Hit("sec")
@@ -555,6 +586,83 @@ func (e *env) mergeDiff() {
 	e.r.Count("merge "+strings.Join(toks, " "), true)
 	e.r.Hit("merge")
 	e.r.Compare(e.d, strings.TrimSpace("merge "+strings.Join(toks, " ")), h.Hex(b))
+}
+
+// ---------------------------------------------------------------- OPN (asymmetric, never split)
+
+// opn: an OpenSecureChannel request chunk secured by a sender with key size
+// ls for a receiver with key size rs (all pairs the policy allows), opened by
+// the receiver.  Oracle: the plaintext comes back and MessageSize = length.
+// Differential: the constructor's numbers, the secured length / size field and
+// the receiver's signature-split / padding-strip logic against the model (the
+// RSA operations themselves are done by the real code: C15 is about them).
+func (e *env) opn(uri string, mode ua.MessageSecurityMode, snd, rcv *h.KeyPair, nonceLen int) {
+	pol := short(uri)
+	canon := fmt.Sprintf("opn %s mode=%d sender=%d receiver=%d", pol, mode, snd.Bits, rcv.Bits)
+	thumb := uapolicy.Thumbprint(rcv.CertDER)
+	sInst, err := uasc.VerifNewAsymmetricInstance(uri, mode, snd.Key, &rcv.Key.PublicKey, snd.CertDER, thumb)
+	if err != nil {
+		e.r.Hit("opn:constructor-refuses")
+		return
+	}
+	rInst, err := uasc.VerifNewAsymmetricInstance(uri, mode, rcv.Key, &snd.Key.PublicKey, rcv.CertDER, uapolicy.Thumbprint(snd.CertDER))
+	if err != nil {
+		e.r.Hit("opn:constructor-refuses")
+		return
+	}
+	e.r.Count(canon, true)
+	e.r.Hit("opn")
+	e.r.Hit(fmt.Sprintf("opn:extra-padding sender=%v receiver=%v", rcv.Bits > 2048, snd.Bits > 2048))
+	ls, rs := snd.Bits/8, rcv.Bits/8
+	sa, ra := sInst.Algo(), rInst.Algo()
+	pad := sa.BlockSize() - sa.PlaintextBlockSize()
+	e.r.Compare(e.d, fmt.Sprintf("asymparams %d %d %d", ls, rs, pad),
+		fmt.Sprintf("%d %d %d %d", sa.BlockSize(), sa.PlaintextBlockSize(), sa.SignatureLength(), sa.RemoteSignatureLength()))
+	e.r.Compare(e.d, fmt.Sprintf("asymparams %d %d %d", rs, ls, ra.BlockSize()-ra.PlaintextBlockSize()),
+		fmt.Sprintf("%d %d %d %d", ra.BlockSize(), ra.PlaintextBlockSize(), ra.SignatureLength(), ra.RemoteSignatureLength()))
+
+	req := &ua.OpenSecureChannelRequest{
+		RequestHeader: &ua.RequestHeader{AuthenticationToken: ua.NewTwoByteNodeID(0), Timestamp: time.Date(2024, 1, 2, 3, 4, 5, 0, time.UTC),
+			RequestHandle: uint32(e.rnd.U64()), AdditionalHeader: ua.NewExtensionObject(nil)},
+		RequestType: ua.SecurityTokenRequestTypeIssue, SecurityMode: mode,
+		ClientNonce: e.rnd.Bytes(nonceLen + e.rnd.Intn(40)), RequestedLifetime: 3600000,
+	}
+	sInst.SetSequenceNumber(uint32(e.rnd.Intn(1000)))
+	m := sInst.NewMessage(req, ua.ServiceTypeID(req), uint32(e.rnd.U64()))
+	chunks, err := safeEncode(m, sInst.MaxBodySize())
+	if err != nil || len(chunks) != 1 {
+		e.r.Fail(canon, "", fmt.Sprintf("EncodeChunks of an OPN: %d chunks, err %v", len(chunks), err))
+		return
+	}
+	raw := chunks[0]
+	hl := 12 + m.AsymmetricSecurityHeader.Len()
+	wire, err := safeSec(sInst, m, append([]byte(nil), raw...))
+	if err != nil {
+		e.r.Fail(canon, "", "signAndEncrypt: "+err.Error())
+		return
+	}
+	e.r.Sample(fmt.Sprintf("%s raw=%d hl=%d wire=%d", canon, len(raw), hl, len(wire)))
+	size := int(binary.LittleEndian.Uint32(wire[4:]))
+	if size != len(wire) {
+		e.r.Fail(canon, "", fmt.Sprintf("MessageSize %d but the chunk has %d bytes", size, len(wire)))
+	}
+	e.r.Compare(e.d, fmt.Sprintf("asymlen %d %d %d %d %d %d %d", mode, sa.SignatureLength(), sa.RemoteSignatureLength(), sa.PlaintextBlockSize(), sa.BlockSize(), hl, len(raw)),
+		fmt.Sprintf("ok %d %d", len(wire), size))
+	res := h.Catch(func() string {
+		d, err := rInst.VerifyAndDecryptRaw(append([]byte(nil), wire...))
+		if err != nil {
+			return "err"
+		}
+		return "ok " + h.Hex(d)
+	})
+	if res != "ok "+h.Hex(raw[hl:]) {
+		e.r.Fail(canon, "", "the receiver does not get the plaintext back: "+res[:min(len(res), 40)])
+	}
+	if plain, err := ra.Decrypt(wire[hl:]); err == nil {
+		e.r.Compare(e.d, fmt.Sprintf("asymtail %d %d %d %d %s", mode, ra.SignatureLength(), ra.RemoteSignatureLength(), hl, h.Hex(append(append([]byte(nil), wire[:hl]...), plain...))), res)
+	} else {
+		e.r.Fail(canon, "", "the receiver's algorithm does not decrypt the chunk: "+err.Error())
+	}
 }
 
 // ---------------------------------------------------------------- main
@@ -683,7 +791,37 @@ func main() {
 	for i := 0; i < o.N(300, 5000); i++ {
 		e.mergeDiff()
 	}
-	for _, b := range []string{"vad:intact:ok", "vad:bitflip:err", "vad:truncated:err", "vad:truncated:panic", "vad:header-only:panic", "seq:wraps", "body:exact-multiple", "enc:maxBody=0"} {
+
+	// --- OPN chunks: every policy, both modes, every ordered pair of key sizes
+	keys := map[int][2]*h.KeyPair{}
+	for _, bits := range []int{1024, 2048, 3072, 4096} {
+		a, errA := h.LoadKey(o.Keys, bits, "a")
+		b, errB := h.LoadKey(o.Keys, bits, "b")
+		if errA != nil || errB != nil {
+			r.InfraError = fmt.Sprintf("keys rsa%d: %v %v", bits, errA, errB)
+			r.Write(o.Out)
+			return
+		}
+		keys[bits] = [2]*h.KeyPair{a, b}
+	}
+	for _, p := range pms {
+		if p.uri == ua.SecurityPolicyURINone {
+			continue
+		}
+		nl := 32
+		if short(p.uri) == "Basic128Rsa15" {
+			nl = 16
+		}
+		for _, sb := range []int{1024, 2048, 3072, 4096} {
+			for _, rb := range []int{1024, 2048, 3072, 4096} {
+				if !o.Thorough() && sb == rb && sb != 2048 && p.mode == ua.MessageSecurityModeSign {
+					continue // quick: equal sizes once per policy, all unequal pairs
+				}
+				e.opn(p.uri, p.mode, keys[sb][0], keys[rb][1], nl)
+			}
+		}
+	}
+	for _, b := range []string{"vad:intact:ok", "vad:bitflip:err", "vad:truncated:err", "vad:truncated:panic", "vad:header-only:panic", "seq:wraps", "body:exact-multiple", "enc:maxBody=0", "opn:extra-padding sender=true receiver=false", "opn:extra-padding sender=false receiver=true", "opn:extra-padding sender=true receiver=true", "opn:extra-padding sender=false receiver=false"} {
 		if r.Distribution[b] == 0 {
 			r.Unreached = append(r.Unreached, b)
 		}
